@@ -744,6 +744,12 @@ pub fn sanitize(c: &mut CmdSpec) {
     let allow_missing = c.has(Setting::AllowMissingPositional);
     for a in c.args.iter_mut() {
         let tv = a.takes_values();
+        if matches!(a.act(), Act::Help | Act::HelpShort | Act::HelpLong | Act::Version) {
+            // a default or environment value on a help/version action would *trigger* it
+            a.default_ifs.clear();
+            a.env = None;
+            a.required = false;
+        }
         if !tv {
             a.hint = None;
             a.hide_possible_values = false;
